@@ -1519,6 +1519,63 @@ func TestVerifC12(t *testing.T) {
 		st["re-resolve-cases"]++
 	}
 
+	// -- family 7: the shape of a scheme.  Written from the documentation of schemePattern ("beginning with a letter
+	// and followed by any combination of letters, digits, plus, period, or hyphen", at least two characters), NOT
+	// from the regular expression: "${<scheme>:A}" as a whole or embedded value must give "invalid uri" for an
+	// ill-formed scheme, "not supported" for a well-formed unregistered one, and resolve for a registered one.
+	nSch := vBudget(70, 12)
+	for i := 0; i < nSch; i++ {
+		r := vNewRand(uint64(7000003 + i))
+		c := vNewCfg([]string{"", "env"}[r.Intn(2)], "env", "tt", "a+b.c-d", "Z9")
+		for _, sc := range []string{"env", "tt", "a+b.c-d", "Z9"} {
+			c.put(sc+":A", &vEntry{raw: "v-" + sc})
+		}
+		var scheme string
+		switch r.Pick(30, 70) {
+		case 0:
+			scheme = []string{"env", "tt", "a+b.c-d", "Z9", "zz", "x.y", "h2"}[r.Intn(7)]
+		case 1:
+			const al = "aZ19+.-_~/ @#"
+			n := 1 + r.Intn(4)
+			b := make([]byte, n)
+			for j := range b {
+				b[j] = al[r.Intn(len(al))]
+			}
+			scheme = string(b)
+		}
+		isLetter := func(ch byte) bool { return (ch >= 'a' && ch <= 'z') || (ch >= 'A' && ch <= 'Z') }
+		wellFormed := len(scheme) >= 2 && isLetter(scheme[0])
+		for j := 1; j < len(scheme) && wellFormed; j++ {
+			ch := scheme[j]
+			wellFormed = isLetter(ch) || (ch >= '0' && ch <= '9') || ch == '+' || ch == '.' || ch == '-'
+		}
+		registered := scheme == "env" || scheme == "tt" || scheme == "a+b.c-d" || scheme == "Z9"
+		val := "${" + scheme + ":A}"
+		if r.Bool() {
+			val = "p" + val + "q"
+		}
+		srcs := []any{map[string]any{"k": val}}
+		c.setSources(srcs)
+		o := vObserve(c, 1)
+		term := vCaseTerm(c, srcs, o)
+		if hung(term, o) {
+			return
+		}
+		emit(true, term)
+		st["scheme-shape-cases"]++
+		want := 0
+		switch {
+		case wellFormed && registered:
+			want = -1
+		case wellFormed:
+			want = 2
+		}
+		st[fmt.Sprintf("scheme-shape-want-%d", want)]++
+		if o.errCode != want {
+			out.Oracle("scheme-shape", term, fmt.Sprintf("reference %s: scheme %q is wellFormed=%v registered=%v by the documented rule; expected class %d, got %d", val, scheme, wellFormed, registered, want, o.errCode))
+		}
+	}
+
 	// -- family 3: merges
 	nMerge := vBudget(300, 12)
 	for i := 0; i < nMerge; i++ {
